@@ -104,6 +104,9 @@ func (c *ColArr[T]) DecodeColumn(r *Reader, rows int) error {
 	if err := c.Offsets.DecodeColumn(r, rows); err != nil {
 		return errors.Wrap(err, "read offsets")
 	}
+	if err := checkOffsets(c.Offsets); err != nil {
+		return errors.Wrap(err, "offsets")
+	}
 	var size int
 	if l := len(c.Offsets); l > 0 {
 		// Pick last offset as total size of "elements" column.
@@ -119,6 +122,19 @@ func (c *ColArr[T]) DecodeColumn(r *Reader, rows int) error {
 }
 
 // Reset implements ColResult.
+// checkOffsets verifies that cumulative offsets never decrease, so that every
+// row [offsets[i-1], offsets[i]) lies inside the decoded data.
+func checkOffsets(offsets ColUInt64) error {
+	var prev uint64
+	for i, off := range offsets {
+		if off < prev {
+			return errors.Errorf("offset %d of row %d is less than the previous offset %d", off, i, prev)
+		}
+		prev = off
+	}
+	return nil
+}
+
 func (c *ColArr[T]) Reset() {
 	c.Data.Reset()
 	c.Offsets.Reset()
